@@ -13,7 +13,7 @@
    and l1 after.  [eser] is the never re-used serial number of one registration ("the timer");
    [earm e] is the time e was registered or last re-armed, [enext e] its deadline (m_next). *)
 From OlaBase Require Import Bytes.
-From C16 Require Import Model Proofs Invariant Invariant2 Timers PModel PProofs PClose PAgree.
+From C16 Require Import Model Proofs Invariant Invariant2 Timers Due PModel PProofs PClose PAgree PAgreeW PHaz PWf PLive.
 Local Open Scope N_scope.
 
 Definition allocator_ok (alloc : list N -> N -> N) : Prop :=
@@ -59,6 +59,19 @@ Theorem c16_fires_when_due : forall alloc pickc s cbs s' now',
   now' = clock s' /\ forall x, In x (q s') -> clock s' < enext x.
 Proof. exact exec_post. Qed.
 Print Assumptions c16_fires_when_due.
+
+(* A due, never-cancelled timer fires in the first ExecuteTimeouts with now >= deadline: if timer e is
+   queued in a reachable state s with deadline <= clock s, ExecuteTimeouts is run (now = clock s) and no cancel
+   is ever aimed at e (neither before nor by a callback of this very call), then e's callback runs during
+   this call (an LFire of e among the entries the call adds to the log). *)
+Theorem c16_due_timer_fires : forall alloc pickc, allocator_ok alloc -> cancel_target_ok pickc ->
+  forall ops s cbs s' e, run alloc pickc init ops = Some s ->
+  In e (q s) -> enext e <= clock s ->
+  step alloc pickc s (OExec cbs) = Some s' ->
+  (forall id, ~ In (LCancel (eser e) id) (log s')) ->
+  exists l now, log s' = l ++ log s /\ In (LFire e now) l.
+Proof. exact t_due_fires. Qed.
+Print Assumptions c16_due_timer_fires.
 
 (* Single-shot timers fire once: no other firing in the whole trace has the same serial. *)
 Theorem c16_single_once : forall alloc pickc, allocator_ok alloc -> cancel_target_ok pickc ->
@@ -185,8 +198,7 @@ Print Assumptions c16_ghost_is_history.
    is still queued: in every run (any callback scripts, any operations, either back-end) the log holds
    at most one close callback for each descriptor, and the bytes still pending on the descriptor at the
    moment a close callback is invoked (recorded, as a ghost, in the close entry's le_bytes) are none.
-   "At least once" is NOT claimed: see known finding C16-epoll-hup-chain (EPoller never reports the close
-   of a socket that also has a write registration). *)
+   "At least once" is c16_close_reported below. *)
 Theorem c16_close_once_after_data :
   forall (be : bool) (c : p_cfg) (ops : list p_op),
     (forall d, p_nclose d (p_log (p_run be c ops)) <= 1) /\
@@ -206,17 +218,100 @@ Theorem c16_read_takes_queue_prefix :
 Proof. exact p_read_delivers. Qed.
 Print Assumptions c16_read_takes_queue_prefix.
 
+(* A remote close IS reported.  Let d be a connected descriptor that is in the poller's table (SelectPoller:
+   its slot in the connected map is present; EPoller: the fd is mapped to an EPollData whose
+   connected_descriptor is d, in a state reached by any run), whose peer has hung up, whose queued data has all
+   been read, which still holds its on_close callback and has not been deleted.  Then ONE Poll() runs d's
+   on_close callback, provided d stays registered during that iteration: no scripted callback action (of any
+   descriptor) is aimed at d.  Other callbacks may add/remove any other descriptors meanwhile, the kernel may
+   report the ready descriptors in either order, d may also have a write registration (fix 03).
+   With c16_close_once_after_data: reported exactly once, after the data. *)
+Theorem c16_close_reported :
+  forall (c : p_cfg) (d : nat) (desc : bool),
+    (forall d' a, In a (pc_rs (p_get c d') ++ pc_ws (p_get c d') ++ pc_cs (p_get c d')) -> p_act_target a <> d) ->
+    d < length c ->
+    (forall s, st_be s = false -> s_c (st_sel s) d = SPres ->
+       st_closed s d = true -> st_pend s d = [] -> st_onclose s d = true -> st_del s d = false ->
+       exists e, In e (st_log (p_step c s (POPoll desc))) /\ le_d e = d /\ le_kind e = PKClose) /\
+    (forall ops id, let s := p_run true c ops in
+       ep_map (st_ep s) d = Some id -> e_cd (ep_obj (st_ep s) id) = Some d ->
+       e_rd (ep_obj (st_ep s) id) = None -> e_r (ep_obj (st_ep s) id) = true ->
+       st_closed s d = true -> st_pend s d = [] -> st_onclose s d = true -> st_del s d = false ->
+       exists e, In e (st_log (p_step c s (POPoll desc))) /\ le_d e = d /\ le_kind e = PKClose).
+Proof.
+  intros c d desc G L. split.
+  - intros s B C1 C2 C3 C4 C5. apply (p_sel_close_reported c d s desc G L). constructor; auto.
+  - intros ops id s M C R E C2 C3 C4 C5. apply (p_ep_close_reported c ops d id desc G L).
+    constructor; auto. exact (proj1 (p_inv_run c true ops)). repeat split; auto.
+Qed.
+Print Assumptions c16_close_reported.
+
+(* the premises are reachable: register, peer closes -> the descriptor is in the table in the required state
+   (with another descriptor whose callbacks add/remove itself), on both back-ends *)
+Example c16_close_reported_premises :
+  let c := [Build_p_dcfg PSock true false 9 [] [] []; Build_p_dcfg PSock false false 9 [PAAddW 1] [PARemW 1] []] in
+  let ops := [POAddR 0; POAddR 1; POWrite 1 [5%N]; POClosePeer 0] in
+  p_no_target c 0 /\ p_ks 0 (p_run false c ops) /\ p_ke 0 0 (p_run true c ops).
+Proof.
+  split; [|split].
+  - intros d' a. unfold p_scripts. destruct d' as [|[|[|d']]]; simpl; intuition (subst; simpl; discriminate).
+  - constructor; vm_compute; reflexivity.
+  - constructor; try (vm_compute; reflexivity). repeat split; vm_compute; reflexivity.
+Qed.
+
+(* No deleted descriptor object is ever used: the model's hazard flag st_haz (set whenever a poller
+   dereferences, or hands to a callback, a descriptor object that delete_on_close has already deleted) stays
+   false in every run on both back-end models, under the API contract for delete_on_close descriptors
+   (guard p_hz_cfg / p_hz_ops, spelled out): a delete_on_close descriptor never gets a write registration
+   (from a script or from the top level) and its own on_close callback does not register it again.
+   (The EPoller model, like the code, never deletes a delete_on_close descriptor at all; the guard is only
+   needed by the SelectPoller half.) *)
+Theorem c16_no_use_of_deleted_descriptor :
+  forall (be : bool) (c : p_cfg) (ops : list p_op),
+    (forall d, Forall (p_act_ok c) (pc_rs (p_get c d)) /\ Forall (p_act_ok c) (pc_ws (p_get c d)) /\
+               Forall (p_act_ok c) (pc_cs (p_get c d)) /\
+               (pc_doc (p_get c d) = true -> ~ In (PAAddR d) (pc_cs (p_get c d)))) ->
+    Forall (p_op_ok c) ops ->
+    st_haz (p_run be c ops) = false.
+Proof. exact p_no_hazard. Qed.
+Print Assumptions c16_no_use_of_deleted_descriptor.
+
+(* the guard is satisfiable by a configuration that does use delete_on_close, with a script *)
+Example c16_hazard_guard_satisfiable :
+  let c := [Build_p_dcfg PSock true true 9 [PARemR 0] [] [PARemR 0];
+            Build_p_dcfg PSock false false 9 [PAAddW 1] [PARemW 1] []] in
+  p_hz_cfg c /\ p_hz_ops c [POAddR 0; POAddR 1; POAddW 1; POWrite 0 [1%N]; POClosePeer 0; POPoll false] /\
+  exists e, In e (p_log (p_run false c [POAddR 0; POClosePeer 0; POPoll false])) /\ le_kind e = PKClose.
+Proof.
+  split; [|split].
+  - intros d. destruct d as [|[|[|d]]]; simpl; (split; [|split; [|split]]);
+      repeat constructor; simpl; auto; try discriminate; intros _ H; simpl in H; intuition discriminate.
+  - repeat constructor; simpl; auto.
+  - vm_compute. eexists. split. left. reflexivity. reflexivity.
+Qed.
+
 (* Both back-ends deliver, per descriptor, the same callbacks and the same bytes — proved here ONLY on a
    bounded domain by exhaustive evaluation (hence _bounded_partial): one descriptor (pipe or socket, plain
    or connected, read size 0/1/9, callbacks without scripted add/remove), all sequences of at most 5
-   operations from {AddRead, RemoveRead, peer writes 2 bytes, peer closes, Poll}.  The general statement is
-   false on the unchanged code (C16-epoll-hup-chain: read+write registration on a hung-up socket) and is
-   otherwise only tested by the correspondence runs (key agree=). *)
+   operations from {AddRead, RemoveRead, peer writes 2 bytes, peer closes, Poll}.  A general (unbounded)
+   simulation theorem between the two poller models is NOT proved; with callbacks that add/remove OTHER
+   descriptors the back-ends legitimately differ (the order in which ready descriptors are served differs),
+   and EPoller never deletes a delete_on_close descriptor; agreement is otherwise tested by the
+   correspondence runs (key agree=). *)
 Theorem c16_backends_agree_bounded_partial :
   forall c ops, In c p_ag_cfgs -> In ops (p_ag_seqs 5) ->
     p_cbs_eqb (p_proj 0 (p_log (p_run true c ops))) (p_proj 0 (p_log (p_run false c ops))) = true.
 Proof. exact p_ag_bounded_forall. Qed.
 Print Assumptions c16_backends_agree_bounded_partial.
+
+(* Second bounded domain, with write registrations (the region repaired by fix 03: a socket registered for
+   reading AND writing whose peer hangs up): one socket descriptor, all sequences of at most 5 operations from
+   {AddRead, RemoveRead, AddWrite, RemoveWrite, peer writes 2 bytes, peer closes, Poll}. *)
+Theorem c16_backends_agree_rw_bounded_partial :
+  forall c ops, In c p_ag_socks -> In ops (p_ag_seqs_w 5) ->
+    p_cbs_eqb (p_proj 0 (p_log (p_run true c ops))) (p_proj 0 (p_log (p_run false c ops))) = true.
+Proof. exact p_ag_bounded_w_forall. Qed.
+Print Assumptions c16_backends_agree_rw_bounded_partial.
 
 (* Non-vacuity and the data-before-close behaviour on concrete runs. *)
 Definition p_ex_cfg (k : p_kind) : p_cfg := [Build_p_dcfg k true false 9 [] [] []].
